@@ -1,0 +1,60 @@
+//go:build verif
+
+// Contracts (machine-checked by /verif/engine, see /verif/DESIGN.md). Comment-only file.
+package velocity
+
+// ---- C20: forwarding version negotiation = Velocity's decision table -------------------------------
+// req' = min(requested, 4);  req' <= 1 -> 1;  client >= 1.19.3 -> (req' >= 4 ? 4 : 1);  no key -> 1;
+// key revision GenericV1 -> 2;  LinkedV2 -> (req' >= 3 ? 3 : 1);  otherwise 1.
+//@ func findForwardingVersion
+//@   props C20
+//@   at-call Protocol as proto: assert arg0 == player
+//@   at-call GreaterEqual as ge: assert arg0 == res(proto) && arg1 == version.Minecraft_1_19_3
+//@   at-call IdentifiedKey as key: assert arg0 == player
+//@   at-call KeyRevision as rev: assert arg0 == res(key)
+//@   ensures [default] min(requested, 4) <= 1 ==> result == 1
+//@   ensures [range] result >= 1 && result <= 4
+//@   ensures [asks-protocol] min(requested, 4) > 1 ==> called(ge)
+//@   ensures [lazy-session] called(ge) && res(ge) ==> result == ite(min(requested, 4) >= 4, 4, 1)
+//@   ensures [asks-key] called(ge) && !res(ge) ==> called(key)
+//@   ensures [no-key] called(key) && isnil(res(key)) ==> result == 1
+//@   ensures [asks-revision] called(key) && !isnil(res(key)) ==> called(rev)
+//@   ensures [generic-v1] called(rev) && !isnil(res(rev)) && res(rev) == keyrevision.GenericV1 ==> result == 2
+//@   ensures [linked-v2] called(rev) && !isnil(res(rev)) && res(rev) != keyrevision.GenericV1 && res(rev) == keyrevision.LinkedV2 ==> result == ite(min(requested, 4) >= 3, 3, 1)
+//@   ensures [other-revision] called(rev) && (isnil(res(rev)) || (res(rev) != keyrevision.GenericV1 && res(rev) != keyrevision.LinkedV2)) ==> result == 1
+
+// ---- C20: payload = HMAC-SHA256(secret, body) ++ body, body in the order a Paper backend parses it ---
+// body = VarInt(version) String(address) UUID(id) String(name) Properties(props)
+//        [PlayerKey(key) if 2 <= version < 4  [Bool(holder != Nil) [UUID(holder)] if version >= 3]]
+//@ func CreateForwardingData
+//@   props C20
+//@   at-call NewBuffer#1 as fwd
+//@   at-call findForwardingVersion as ver: assert arg0 == requestedVersion && arg1 == player
+//@   at-call WriteVarInt as w1: assert ref(arg0) == res(fwd) && arg1 == res(ver) && !called(w2)
+//@   at-call WriteString#1 as w2: assert called(w1) && ref(arg0) == res(fwd) && streq(arg1, address) && !called(w3)
+//@   at-call ID as pid: assert arg0 == player
+//@   at-call WriteUUID#1 as w3: assert called(w2) && ref(arg0) == res(fwd) && arg1 == res(pid) && !called(w4)
+//@   at-call Username as uname: assert arg0 == player
+//@   at-call WriteString#2 as w4: assert called(w3) && ref(arg0) == res(fwd) && streq(arg1, res(uname)) && !called(w5)
+//@   at-call GameProfile as gp: assert arg0 == player
+//@   at-call WriteProperties as w5: assert called(w4) && ref(arg0) == res(fwd) && arg1 == res(gp).Properties && !called(w6)
+//@   at-call IdentifiedKey as key: assert arg0 == player
+//@   at-call WritePlayerKey as w6: assert called(w5) && ref(arg0) == res(fwd) && res(ver) >= 2 && res(ver) < 4 && arg1 == res(key) && !isnil(res(key)) && !called(wb)
+//@   at-call SignatureHolder#1 as holder: assert arg0 == res(key)
+//@   at-call WriteBool as wb: assert called(w6) && ref(arg0) == res(fwd) && res(ver) >= 3 && (arg1 <==> res(holder) != uuid.Nil)
+//@   at-call SignatureHolder#2 as holder2: assert arg0 == res(key)
+//@   at-call WriteUUID#2 as w8: assert called(wb) && ref(arg0) == res(fwd) && arg(wb, 1) && arg1 == res(holder2)
+//@   at-call hmac.New as mac: assert arg1 == hmacSecret
+//@   at-call Bytes#1 as fb1: assert arg0 == res(fwd) && called(w5)
+//@   at-call (Hash).Write as mw: assert arg0 == res(mac) && arg1 == res(fb1)
+//@   at-call NewBuffer#2 as data
+//@   at-call (Hash).Sum as msum: assert arg0 == res(mac) && isnil(arg1) && called(mw)
+//@   at-call (*Buffer).Write#1 as dw1: assert arg0 == res(data) && arg1 == res(msum)
+//@   at-call Bytes#2 as fb2: assert arg0 == res(fwd)
+//@   at-call (*Buffer).Write#2 as dw2: assert arg0 == res(data) && called(dw1) && arg1 == res(fb2)
+//@   at-call Bytes#3 as out: assert arg0 == res(data) && called(dw2)
+//@   ensures [mac-then-body] result.1 == nil ==> called(out) && result.0 == res(out)
+//@   ensures [key-section-present] result.1 == nil && res(ver) >= 2 && res(ver) < 4 ==> called(w6)
+//@   ensures [holder-flag-present] result.1 == nil && res(ver) >= 3 && res(ver) < 4 ==> called(wb)
+//@   ensures [holder-uuid-present] result.1 == nil && called(wb) && arg(wb, 1) ==> called(w8)
+//@   ensures [missing-key-is-error] called(key) && isnil(res(key)) ==> result.1 != nil
